@@ -7,7 +7,13 @@
 (* GeoWit computes one witness (used by Squeeth.tla to carry a TWAP in its   *)
 (* state; Inv_C14_Twap re-checks it against TwapOk).                         *)
 (***************************************************************************)
-EXTENDS Num
+EXTENDS Num, Sequences
+
+(* the window: the bars whose timestamp lies in [now - 6 min, now] (TWAP_PERIOD = 7 one-minute rows); with bars F minutes apart
+   (a resampled run) these are the last (6 div F) + 1 bars - the window is a span of TIME, not a number of rows *)
+TwapSpanMin == 6
+TwapWindow(all, F) == LET n == Len(all)  k == (TwapSpanMin \div F) + 1
+                      IN  SubSeq(all, IF n - k + 1 < 1 THEN 1 ELSE n - k + 1, n)
 
 RECURSIVE Prod(_)
 Prod(ps) == IF ps = <<>> THEN One ELSE QMul(Head(ps), Prod(Tail(ps)))
